@@ -28,6 +28,19 @@ TARGETS = [
     ("radioactivedecay/nuclide.py", "Nuclide", "branching_fractions", "Model/Queries.v (delegation)"),
     ("radioactivedecay/nuclide.py", "Nuclide", "decay_modes", "Model/Queries.v (delegation)"),
     ("radioactivedecay/nuclide.py", "Nuclide", "atomic_mass", "Model/Queries.v (delegation)"),
+    ("radioactivedecay/inventory.py", "Inventory", "decay", "Model/DecayModel.v decay_model (float class)"),
+    ("radioactivedecay/inventory.py", "Inventory", "cumulative_decays", "Model/DecayModel.v cumulative_model (float class)"),
+    ("radioactivedecay/inventory.py", "InventoryHP", "decay", "Model/DecayModel.v decay_model (high-precision class; sig_fig)"),
+    ("radioactivedecay/inventory.py", "InventoryHP", "cumulative_decays", "Model/DecayModel.v cumulative_model (high-precision class)"),
+    ("radioactivedecay/inventory.py", "InventoryHP", "numbers", "float() read-out of the high-precision contents"),
+    ("radioactivedecay/inventory.py", "AbstractInventory", "_setup_decay_calc", "Model/DecayModel.v n0_of / indices"),
+    ("radioactivedecay/inventory.py", "AbstractInventory", "_perform_decay_calc", "Model/DecayModel.v product"),
+    ("radioactivedecay/inventory.py", "AbstractInventory", "_convert_decay_time", "generated convert_decay_time (also translated)"),
+    ("radioactivedecay/decaydata.py", "DecayMatricesScipy", "_setup_matrix_e", "zero template for matrix_e"),
+    ("radioactivedecay/decaydata.py", "DecayMatricesScipy", "_setup_vector_n0", "zero template for vector_n0"),
+    ("radioactivedecay/decaydata.py", "DecayMatricesSympy", "_setup_matrix_e", "zero template for matrix_e"),
+    ("radioactivedecay/decaydata.py", "DecayMatricesSympy", "_setup_vector_n0", "zero template for vector_n0"),
+    ("radioactivedecay/decaydata.py", "DecayMatrices", "__init__", "templates created once per data set"),
     ("radioactivedecay/inventory.py", "AbstractInventory", "__init__", "Model/Inventory.v construct"),
     ("radioactivedecay/inventory.py", "AbstractInventory", "_parse_nuclides", "Model/Inventory.v parse_keys"),
     ("radioactivedecay/inventory.py", "AbstractInventory", "_check_values", "Model/Inventory.v check_values"),
